@@ -20,7 +20,7 @@ EXPLANATION = (
     "advances too; Handle.preprocess forks and postprocess applies the call hash; C25.2 _perform_rollbacks dominates _consume_resources and both "
     "executor submits on the non-dry-run path and visits every Handle leaf of (args, kwargs); C25.3 Handle.is_valid delegates to "
     "backend.is_valid_handle (falsy for unrecorded hashes); advance_handle records new states as valid (re-deriving a state makes it valid again via "
-    "get_or_create defaults); rollback_handle invalidates exactly the transitive children of the handle among valid same-name handles."
+    "get_or_create defaults); rollback_handle invalidates the transitive children of the handle over every recorded edge of same-name handles (no is_valid restriction on the walked edges: a re-derived valid state may sit below an invalid one)."
     ' C25.3 also: a (fork parent, fork) lineage pair may be gated by is_recorded of the fork only, never of the fork parent (guards of the collecting comprehension / append site).'
 )
 
@@ -199,8 +199,24 @@ def run(ctx):
         r3.good(f"{db.rel}:RedunBackendDb.advance_handle:fork-edge", "no fork back-fill in advance_handle")
     rh = db.func("RedunBackendDb.rollback_handle")
     t = src(rh)
-    ok = "Handle.fullname == handle.__handle__.fullname" in t and "Handle.is_valid.is_(True)" in t and "lookups[handle.__handle__.hash]" in t and "queue.extend(lookups[handle_hash])" in t and "{Handle.is_valid: False}" in t
-    r3.check(ok, f"{db.rel}:RedunBackendDb.rollback_handle", "rollback does not invalidate the transitive children of the handle (and only those) among valid handles of the same name", db.rel, rh.lineno)
+    ok = "Handle.fullname == handle.__handle__.fullname" in t and "lookups[handle.__handle__.hash]" in t and "queue.extend(lookups[handle_hash])" in t and "{Handle.is_valid: False}" in t
+    r3.check(ok, f"{db.rel}:RedunBackendDb.rollback_handle", "rollback does not invalidate the transitive children of the handle among the handles of the same name", db.rel, rh.lineno)
+    # the edge set the walk runs over: every recorded edge of that handle name.  Restricting it to edges that leave a currently *valid* state stops the walk at a
+    # state invalidated earlier -- but advance_handle re-validates a state (get_or_create defaults) without touching its ancestors, so a valid, re-derived
+    # descendant can sit below an invalid state and would survive a rollback further up.
+    edge_q = [n for n in ast.walk(rh) if isinstance(n, ast.Call) and isinstance(n.func, ast.Attribute) and n.func.attr in ("filter", "filter_by") and "HandleEdge" in src(n)]
+    if not edge_q:
+        raise AnalysisError("rollback_handle: the query that loads the lineage edges was not found", "RedunBackendDb.rollback_handle")
+    for qn in edge_q:
+        restricted = [src(a) for a in list(qn.args) + [k.value for k in qn.keywords] if "is_valid" in src(a)]
+        r3.check(
+            not restricted,
+            f"{db.rel}:RedunBackendDb.rollback_handle:all-edges",
+            f"rollback_handle walks only edges whose parent row satisfies `{'; '.join(restricted)}`: history advance([R],P); advance([R],Q); advance([P],M); advance([M,Q],D); rollback(P); advance([Q],D) "
+            "(D valid again, M still invalid); rollback(P) leaves D valid although it is derived from P through M",
+            db.rel,
+            qn.lineno,
+        )
     own = "invalid_hashes.add(handle.__handle__.hash)" in t
     r3.check(not own, f"{db.rel}:RedunBackendDb.rollback_handle:self", "rollback invalidates the rolled-back state itself", db.rel, rh.lineno)
     gm = repo.mod("redun/db_utils.py").func("get_or_create")
